@@ -542,6 +542,8 @@ func (e *engine) eval() error {
 			}
 		}
 	}
+	doPhaseDone := false
+incremental:
 	if e.deltaStore.EstimateFactCount() > 0 || (e.temporalDeltaStore != nil && e.temporalDeltaStore.EstimateFactCount() > 0) {
 		// Incremental rounds.
 		deltaRuleMap := makeDeltaRules(e.programInfo.Decls, e.predToRules)
@@ -616,7 +618,13 @@ func (e *engine) eval() error {
 			}
 		}
 	}
+	if doPhaseDone {
+		return nil
+	}
 	// We reached the fixed point and can now apply "do-transforms".
+	// Facts they add are the delta of one more series of incremental rounds, so
+	// that rules of this stratum that mention the aggregated predicate see them.
+	doDelta := factstore.NewMultiIndexedArrayInMemoryStore()
 	for _, clause := range e.programInfo.Rules {
 		if clause.Transform == nil || clause.Transform.IsLetTransform() {
 			continue
@@ -651,13 +659,22 @@ func (e *engine) eval() error {
 				if e.options.recorder != nil && kind == TransformKindDo {
 					e.options.recorder.DoEmit(clause, clause.Head, groupKey, groupFacts, a)
 				}
-				return e.store.Add(a)
+				if e.store.Add(a) {
+					doDelta.Add(a)
+					return true
+				}
+				return false
 			}); err != nil {
 			return err
 		}
 		if merr != nil {
 			return merr
 		}
+	}
+	if doDelta.EstimateFactCount() > 0 {
+		doPhaseDone = true
+		e.deltaStore = doDelta
+		goto incremental
 	}
 	return nil
 }
